@@ -10,9 +10,10 @@ use std::sync::Arc;
 
 use trustfall_core::interpreter::execution::interpret_ir;
 use trustfall_core::interpreter::replay::assert_interpreted_results;
-use trustfall_core::interpreter::trace::{AdapterTap, Trace, TraceOpContent, tap_results};
+use trustfall_core::interpreter::trace::{AdapterTap, Trace, TraceOpContent, YieldValue, tap_results};
 
-use crate::engine::adapter::Vtx;
+use crate::engine::adapter::{TableAdapter, Vtx};
+use crate::engine::batching::{ALTERNATING, BatchingAdapter, Entry, MAX, Mode, Sched, Sizes};
 use crate::engine::common::*;
 use crate::engine::ir_sexp::{ir_to_sexp, rows_to_sexp};
 use crate::engine::run::{Answer, Row, execute, prepare, real_args};
@@ -22,6 +23,98 @@ use tfharness::rng::Rng;
 use tfharness::sexp::Sexp;
 
 const MAX_OPS_FOR_SERDE: usize = 5000;
+/// Recordings under read-ahead adapters are made for results of at most this many rows whose lazy trace
+/// has at most this many ops (each costs a traced run, a RON round trip and a replay).
+const READAHEAD_MAX_ROWS: usize = 200;
+const READAHEAD_MAX_OPS: usize = 2000;
+
+/// The fixed read-ahead schedules a recording is made under (label, schedule).  All of them are
+/// demand-driven (nothing is pulled while the `resolve_*` call itself is running; see the note on
+/// eager adapters in the `rule` text): on the first demand, and whenever its buffer runs dry, the adapter
+/// under the tap pulls 2 / 3 / 1,2,3,4,… / ALL of its input contexts before it yields an output (input
+/// side), or re-batches both its input and the lazy adapter's output in chunks of 4.
+fn readahead_schedules() -> Vec<(&'static str, Sched)> {
+    let cyc = |mode: Mode, sizes: Sizes| Sched { entries: vec![Entry { mode, sizes }], cyclic: true };
+    vec![
+        // 2-bit digits 01 / 10 of the repo's chunk sequence: chunks of 2 / of 3
+        ("in2", cyc(Mode::In, Sizes::LazyWord(0x5555_5555_5555_5555))),
+        ("in3", cyc(Mode::In, Sizes::LazyWord(0xAAAA_AAAA_AAAA_AAAA))),
+        ("in1234", cyc(Mode::In, Sizes::LazyWord(ALTERNATING))),
+        ("in-all", cyc(Mode::In, Sizes::List(vec![0]))),
+        ("both4", cyc(Mode::Both, Sizes::LazyWord(MAX))),
+    ]
+}
+
+/// One recording under a read-ahead adapter.
+struct Batched {
+    label: &'static str,
+    /// rows while tracing, or the panic text
+    traced: Result<Vec<Row>, String>,
+    /// replay from the RON-round-tripped trace: `Ok` = reproduced the direct rows and then ended
+    replay: Result<(), String>,
+    /// most input contexts pending (handed to the adapter, output not yet yielded) inside one resolver call
+    max_pending: usize,
+}
+
+/// Largest number of contexts that were pending inside a single resolver call of a recorded run.
+fn max_pending_inputs(trace: &Trace<Vtx>) -> usize {
+    let mut pending: std::collections::BTreeMap<_, usize> = Default::default();
+    let mut max = 0;
+    for op in trace.ops.values() {
+        let Some(parent) = op.parent_opid else { continue };
+        match &op.content {
+            TraceOpContent::YieldInto(_) => {
+                let n = pending.entry(parent).or_insert(0);
+                *n += 1;
+                max = max.max(*n);
+            }
+            TraceOpContent::YieldFrom(
+                YieldValue::ResolveProperty(..) | YieldValue::ResolveNeighborsOuter(..) | YieldValue::ResolveCoercion(..),
+            ) => {
+                if let Some(n) = pending.get_mut(&parent) {
+                    *n = n.saturating_sub(1);
+                }
+            }
+            _ => {}
+        }
+    }
+    max
+}
+
+/// Record the query under `AdapterTap` over a read-ahead `BatchingAdapter` over the table adapter, take
+/// the trace with `finish()`, round-trip it through RON and replay it with the crate's reader.
+fn record_batched(
+    table: &Rc<TableAdapter>,
+    q: &Arc<trustfall_core::ir::IndexedQuery>,
+    args: &std::collections::BTreeMap<String, trustfall_core::ir::FieldValue>,
+    direct: &[Row],
+    label: &'static str,
+    sched: &Sched,
+) -> Batched {
+    let recorded = guarded(|| {
+        let tracer = Rc::new(RefCell::new(Trace::<Vtx>::new(q.ir_query.clone(), args.clone())));
+        let tap = Arc::new(AdapterTap::new(BatchingAdapter::new(table.clone(), sched.clone()).fused(), tracer));
+        let rows: Vec<Row> = match interpret_ir(tap.clone(), q.clone(), real_args(args)) {
+            Err(e) => panic!("arguments rejected while tracing: {e:?}"),
+            Ok(rows) => tap_results(tap.clone(), rows).collect(),
+        };
+        let trace = Arc::try_unwrap(tap).ok().expect("tap still shared").finish();
+        (rows, trace)
+    });
+    let (rows, trace) = match recorded {
+        Err(info) => return Batched { label, traced: Err(info.clone()), replay: Err(info), max_pending: 0 },
+        Ok(x) => x,
+    };
+    let max_pending = max_pending_inputs(&trace);
+    let via_ron: Result<Trace<Vtx>, String> =
+        ron::to_string(&trace).map_err(|e| format!("to ron: {e}")).and_then(|s| ron::from_str(&s).map_err(|e| format!("from ron: {e}")));
+    let replay = match via_ron {
+        Err(e) => Err(e),
+        Ok(t) if t != trace => Err("deserialised trace != recorded trace".to_string()),
+        Ok(t) => guarded(|| assert_interpreted_results(&t, direct, true)),
+    };
+    Batched { label, traced: Ok(rows), replay, max_pending }
+}
 
 /// Everything one `(replay-exec …)` request shows.
 struct Observed {
@@ -36,6 +129,8 @@ struct Observed {
     /// `Err(text)`: it panicked / asserted
     replay_ron: Result<(), String>,
     replay_json: Result<(), String>,
+    /// recordings under read-ahead adapters (empty for heavy results)
+    batched: Vec<Batched>,
 }
 
 /// `Err` = the answer to give instead (frontend / argument error, stale IR). Panics of the direct or
@@ -108,7 +203,17 @@ fn observe(args: &[Sexp]) -> Option<Result<Observed, String>> {
         }
     };
     let (ron_roundtrip, json_roundtrip) = (same(via_ron), same(via_json));
+    // the same recording when the adapter under the tap reads ahead (the lazy table adapter never has
+    // more than one input pending inside a call, so the reader's pending-input queue is otherwise
+    // never longer than 1: seeded change C15-4)
+    let batched = if direct.len() <= READAHEAD_MAX_ROWS && trace.ops.len() <= READAHEAD_MAX_OPS {
+        let table = Rc::new(p.adapter());
+        readahead_schedules().iter().map(|(label, s)| record_batched(&table, &q, &r.args, &direct, label, s)).collect()
+    } else {
+        vec![]
+    };
     Some(Ok(Observed {
+        batched,
         trace_ops: trace.ops.len(),
         serde_skipped,
         ron_roundtrip,
@@ -143,6 +248,19 @@ fn violations(o: &Observed) -> Vec<(String, String)> {
     if let (Err(t), true) = (&o.replay_json, o.json_roundtrip.is_ok()) {
         fail("replay-json-failed", t.clone());
     }
+    for b in &o.batched {
+        match &b.traced {
+            Err(info) => fail(&format!("traced-batched-rows-differ:{}", b.label), format!("traced run under the read-ahead adapter panicked: {info}")),
+            Ok(rows) if *rows != o.direct => {
+                fail(&format!("traced-batched-rows-differ:{}", b.label), format!("direct {} rows, traced under read-ahead {} rows", o.direct.len(), rows.len()))
+            }
+            Ok(_) => {
+                if let Err(t) = &b.replay {
+                    fail(&format!("replay-batched-failed:{}", b.label), format!("max inputs pending in one call while recording: {} | {t}", b.max_pending));
+                }
+            }
+        }
+    }
     out
 }
 
@@ -152,6 +270,10 @@ pub struct C15 {
     /// request line → (trace ops, violations), filled by `eval` so that the oracle need not run
     /// every request a second time (it recomputes whatever is missing)
     verdicts: RefCell<std::collections::HashMap<String, (usize, Vec<(String, String)>)>>,
+    /// request line → (recordings under read-ahead made, most inputs pending in one call among them)
+    readahead: RefCell<std::collections::HashMap<String, (usize, usize)>>,
+    /// (read-ahead recordings made, of those with >= 2 inputs pending in some call)
+    readahead_totals: RefCell<(usize, usize)>,
     serde_skipped: RefCell<usize>,
     checked: RefCell<(usize, usize)>,
 }
@@ -161,7 +283,7 @@ impl Prop for C15 {
         "C15"
     }
     fn rule(&self) -> &'static str {
-        "the worlds of the engine generator; per accepted (query, dataset) one (replay-exec <schema> <data> <query> <ir> <args>) request. Implementation: rows of the direct run over the table adapter; rows of the same run under AdapterTap + tap_results (recording a Trace, taken with AdapterTap::finish()); the Trace is serialised to RON and to JSON and read back (traces of more than 5000 ops - about 2.5 % of the cases - are replayed from memory without the round trip); the query is replayed from each deserialised trace with NO underlying adapter (the crate's trace reader, interpreter::replay::assert_interpreted_results, which runs interpret_ir over the trace and compares every produced row and the end of the stream with the direct rows). The answer is the rows of the replayed run (model = Interp rows). Oracle on the implementation: direct rows = traced rows (traced-rows-differ), the RON / JSON round trip of the trace succeeds and is == (trace-ron-roundtrip, trace-json-roundtrip), both replays reproduce the direct rows without panicking (replay-ron-failed, replay-json-failed). Non-trivial (nt:<feature>+rows): the query uses a fold / optional / recursion / coercion / tag and returned >= 1 row."
+        "the worlds of the engine generator; per accepted (query, dataset) one (replay-exec <schema> <data> <query> <ir> <args>) request. Implementation: rows of the direct run over the table adapter; rows of the same run under AdapterTap + tap_results (recording a Trace, taken with AdapterTap::finish()); the Trace is serialised to RON and to JSON and read back (traces of more than 5000 ops - about 2.5 % of the cases - are replayed from memory without the round trip); the query is replayed from each deserialised trace with NO underlying adapter (the crate's trace reader, interpreter::replay::assert_interpreted_results, which runs interpret_ir over the trace and compares every produced row and the end of the stream with the direct rows). The answer is the rows of the replayed run (model = Interp rows). Oracle on the implementation: direct rows = traced rows (traced-rows-differ), the RON / JSON round trip of the trace succeeds and is == (trace-ron-roundtrip, trace-json-roundtrip), both replays reproduce the direct rows without panicking (replay-ron-failed, replay-json-failed). Recording under read-ahead: the lazy table adapter never holds more than one input context pending inside a resolver call, so for every result of <= 200 rows (lazy trace <= 2000 ops) the query is additionally recorded with AdapterTap over the harness's BatchingAdapter (engine/batching.rs, the repo's VariableBatchingAdapter generalised) over the table adapter under five fixed schedules - the adapter pulls 2 / 3 / 1,2,3,4,... / ALL input contexts before yielding the first output of a chunk (in2, in3, in1234, in-all) or re-batches both sides in chunks of 4 (both4) - the trace is taken with finish(), round-tripped through RON and replayed by the crate's reader: rows while tracing must equal the direct rows (traced-batched-rows-differ:<schedule>, also when that run panics) and the replay must reproduce them without panicking (replay-batched-failed:<schedule>); these are implementation-side oracle runs, the answer stays the rows. nt:replay-under-readahead: some such recording had >= 2 inputs pending inside one resolver call. Non-trivial (nt:<feature>+rows): the query uses a fold / optional / recursion / coercion / tag and returned >= 1 row."
     }
     fn generate(&self, tier: Tier, rng: &mut Rng) -> Vec<Case> {
         let (worlds, stats) = generate_worlds(rng, &WorldKnobs::for_tier(tier));
@@ -189,6 +311,13 @@ impl Prop for C15 {
                         *self.serde_skipped.borrow_mut() += 1;
                     }
                     self.verdicts.borrow_mut().insert(request.to_string(), (o.trace_ops, violations(&o)));
+                    let deepest = o.batched.iter().map(|b| b.max_pending).max().unwrap_or(0);
+                    self.readahead.borrow_mut().insert(request.to_string(), (o.batched.len(), deepest));
+                    {
+                        let mut t = self.readahead_totals.borrow_mut();
+                        t.0 += o.batched.len();
+                        t.1 += o.batched.iter().filter(|b| b.max_pending >= 2).count();
+                    }
                     match &o.replay_ron {
                         Ok(()) => rows_to_sexp(&o.direct).to_string(),
                         Err(_) => "(replay-failed)".to_string(),
@@ -235,6 +364,14 @@ impl Prop for C15 {
     }
     fn post_tags(&self, e: &Evaluated) -> Vec<String> {
         let mut t = nontrivial_tags(e);
+        if let Some((n, deepest)) = self.readahead.borrow().get(&e.line).copied() {
+            if n > 0 {
+                t.push("readahead-recordings".into());
+            }
+            if deepest >= 2 {
+                t.push("nt:replay-under-readahead".into());
+            }
+        }
         t.push(if e.answer.starts_with("(rows (row") {
             "rows:>0".into()
         } else {
@@ -244,7 +381,10 @@ impl Prop for C15 {
     }
     fn extra_stats(&self, _evaluated: &[Evaluated]) -> serde_json::Value {
         let (runs, ops) = *self.checked.borrow();
-        serde_json::json!({"generator": self.stats.borrow().to_json(), "requests_checked": runs, "trace_ops_recorded": ops, "serde_round_trip_skipped_big_trace": *self.serde_skipped.borrow()})
+        serde_json::json!({"generator": self.stats.borrow().to_json(), "requests_checked": runs, "trace_ops_recorded": ops, "serde_round_trip_skipped_big_trace": *self.serde_skipped.borrow(),
+            "readahead": {"schedules": readahead_schedules().iter().map(|(l, s)| format!("{l} = {}", s.to_sexp())).collect::<Vec<_>>(),
+                "recordings": self.readahead_totals.borrow().0, "recordings_with_2_or_more_inputs_pending_in_a_call": self.readahead_totals.borrow().1,
+                "limits": {"max_rows": READAHEAD_MAX_ROWS, "max_lazy_trace_ops": READAHEAD_MAX_OPS}}})
     }
 }
 
